@@ -6,6 +6,7 @@ from common import sx, q, jq, cname, ok
 from units import U
 
 ID = 'C01'
+ZERO_LABELS = True      # a share of the cases is asked with candidates numbered from 0 (harness/common.py LABEL_MODE)
 LEVEL = 'proof'
 GEN_TIES = {'Divisor': 'Props/GenTie_Divisor.v'}
 TIE = {'component/divisor.py': 'translator (Gen/Divisor.v == Model/Divisor.v, Props/GenTie_Divisor.v) + dense grid',
